@@ -71,7 +71,7 @@ type facts struct {
 func analyse(s Scenario) facts {
 	var f facts
 	f.availW, f.convSatW = derive(s, Env)
-	f.availN, f.convSatN = derive(s, Core)
+	f.availN, f.convSatN = deriveGen(s, Core, true)
 	f.allW, f.allN = true, true
 	for _, p := range s.Target.In {
 		if !paramDerivable(p, f.availW, Env) {
@@ -82,8 +82,8 @@ func analyse(s Scenario) facts {
 		}
 	}
 	f.allConvSatN = true
-	for _, b := range f.convSatN {
-		if !b {
+	for i, b := range f.convSatN {
+		if !b && !(s.Convs[i].Gen && !genVisible(s, s.Convs[i])) {
 			f.allConvSatN = false
 		}
 	}
